@@ -33,17 +33,21 @@ HETEROCYCLES = [
     'c1ccc2c(c1)C=CC=C2', 'c1ccc2c(c1)cccc2=O', 'c1cc2cc[nH]c2cn1', 'c1cc2c(cn1)cc[nH]2', 'N1C=CC2=NC=CC2=C1', 'c1ccn2cccc2c1', 'c1ccn2ccnc2c1',
     'c1cn2ccnc2cn1', 'c1cc2n(c1)cccc2', 'C1=CC=C2C=CC=CC2=C1', 'c1ccc2c3ccccc3c2cc1', 'c1ccc2ccc2cc1', 'c1cc2ccc1-2', 'C1=CC2=CC=CC2=C1',
     'c1ccc2c(c1)c1ccccc21', 'B1C=CC=CC=C1', 'c1cc[n-]c1', 'c1ccc2[n-]ccc2c1', 'c1cc[se]cn1', 'c1cnc2ccc3ncccc3c2c1', 'c1ccc2c(c1)nc1ccccc1n2',
+    'CN1C=CC2=NC=CC2=C1', 'CN1C=CC2=CC=NC2=C1', 'CN1C=CC=C2N=CC=C12', 'CN1C=CC2=C3C=CC=CC3=NC2=C1', 'C1=CC=CC=C1N1C=CC2=NC=CC2=C1', 'CCN1C=CC2=NC=CC2=C1',
+    'N1C=CC2=CC=NC2=C1', 'N1C=CC=C2N=CC=C12', 'O=C1C=CNC=C1', 'O=C1C=CN(C)C=C1', 'CN1C=CC(=O)C=C1', 'CN1C=CC=CC1=O',
     'Oc1nc2ccccc2nc1O', 'Oc1ccnc(O)n1', 'O=c1cc[nH]c(=O)[nH]1', 'c1ccc2[nH]nnc2c1', 'c1ccc2nsnc2c1', 'c1ccc2nonc2c1', '[nH]1cccc1-c1ccccn1',
 ]
 CONFIG = {
     'quick': {'shards': 16, 'budget_s': 150, 'n_corpus': 1600, 'k_renum': 2, 'max_forms': 40,
               'floors': {'evaluations': 4000, 'distinct_nontrivial': 500, 'molecules': 800, 'kekule-forms.enumerated': 2500,
                          'renumbered.compared': 1500, 'clause.idempotence': 800, 'aromatic-spellings.compared': 2000,
-                         'protonated.variants': 300, 'protonated.variants-two-or-more': 60}},
+                         'protonated.variants': 300, 'protonated.variants-two-or-more': 60, 'raw-kekule-inputs.thiele-compared': 150,
+                         'n-substituted.variants': 100}},
     'thorough': {'shards': 16, 'budget_s': 1800, 'n_corpus': 4200, 'k_renum': 8, 'max_forms': 400,
                  'floors': {'evaluations': 50000, 'distinct_nontrivial': 2500, 'molecules': 4000, 'kekule-forms.enumerated': 15000,
                             'renumbered.compared': 25000, 'clause.idempotence': 4000, 'aromatic-spellings.compared': 8000,
-                            'protonated.variants': 1000, 'protonated.variants-two-or-more': 200}},
+                            'protonated.variants': 1000, 'protonated.variants-two-or-more': 200, 'raw-kekule-inputs.thiele-compared': 600,
+                            'n-substituted.variants': 400}},
 }
 
 
@@ -313,6 +317,80 @@ def protonated(ctx, m, src, cfg, rng):
         check(ctx, V, 'protonated(%s):%s' % (src, V), cfg, rng)
 
 
+def raw_thiele(ctx, src):
+    """thiele() on the molecule exactly as written in Kekule form (no prior normalisation): the tautomer fix may move a hydrogen
+    between nitrogens, but the totals stay, no valence error appears, and the result has a Kekule form"""
+    try:
+        raw = smiles(src)
+    except Exception:
+        return
+    if not isinstance(raw, MoleculeContainer) or any(b.order == 4 for *_, b in raw.bonds()) or raw.check_valence():
+        return
+    if any(a.implicit_hydrogens is None for _, a in raw.atoms()):
+        return
+    h0 = sum(a.implicit_hydrogens for _, a in raw.atoms())
+    q0 = sum(a.charge for _, a in raw.atoms())
+    carbon0 = {n: a.implicit_hydrogens for n, a in raw.atoms() if a.atomic_number != 7}
+    t = raw.copy()
+    G._fix_slots(t)
+    w = {'smiles': src}
+    try:
+        t.thiele()
+    except Exception as e:
+        ctx.violation('thiele-raises/%s' % type(e).__name__, '%s as written: %r' % (src, e), w)
+        return
+    ctx.count('raw-kekule-inputs.thiele-compared')
+    ctx.evaluations += 1
+    if any(a.implicit_hydrogens is None for _, a in t.atoms()):
+        return
+    h1 = sum(a.implicit_hydrogens for _, a in t.atoms())
+    if h1 != h0 or sum(a.charge for _, a in t.atoms()) != q0:
+        ctx.violation('thiele-changes-atom/hydrogens', '%s as written -> %s: total H %d -> %d' % (src, t, h0, h1), w)
+        return
+    moved = [n for n, h in carbon0.items() if t._atoms[n].implicit_hydrogens != h]
+    if moved:
+        ctx.violation('thiele-changes-atom/hydrogens', '%s as written -> %s: non-nitrogen atoms %s changed their hydrogen count' % (src, t, moved[:4]), w)
+        return
+    if t.check_valence():
+        ctx.violation('thiele-result-has-valence-error', '%s as written -> %s atoms %s' % (src, t, t.check_valence()), w)
+        return
+    try:
+        t.kekule()
+    except Exception as e:
+        ctx.violation('kekule-raises/%s' % type(e).__name__, 'aromatic form %s of %s as written: %r' % (t, src, e), w)
+
+
+def n_substituted(ctx, m, src, cfg, rng):
+    """ring N-H replaced by N-methyl / N-ethyl / N-phenyl through the editing API: the nitrogen can no longer donate a hydrogen to
+    the tautomer fix, the conversions must leave it alone"""
+    K = m.copy()
+    G._fix_slots(K)
+    try:
+        K.kekule()
+        V = G.n_substitute(K, rng)
+        if V is None:
+            return
+        V.thiele()
+    except Exception:
+        ctx.count('n-substituted.build-failed')
+        return
+    ctx.count('n-substituted.variants')
+    check(ctx, V, 'n-substituted(%s):%s' % (src, V), cfg, rng)
+    # the Kekule form as built must aromatise without gaining or losing hydrogens
+    K2 = G.n_substitute(K, rng, 'methyl')
+    if K2 is not None:
+        before = sorted((n, a.implicit_hydrogens, a.charge) for n, a in K2.atoms())
+        try:
+            K2.thiele()
+        except Exception as e:
+            ctx.violation('thiele-raises/%s' % type(e).__name__, 'N-methylated %s: %r' % (src, e), {'smiles': src})
+            return
+        after = sorted((n, a.implicit_hydrogens, a.charge) for n, a in K2.atoms())
+        ctx.count('n-substituted.thiele-hydrogens-compared')
+        if before != after:
+            ctx.violation('thiele-changes-atom/hydrogens', 'N-methylated %s -> %s: %s' % (src, K2, [x for x, y in zip(before, after) if x != y][:3]), {'smiles': src})
+
+
 def worker(ctx):
     cfg = CONFIG[ctx.tier]
     rng = ctx.rng
@@ -330,6 +408,7 @@ def worker(ctx):
         if ctx.out_of_time():
             ctx.note('time budget reached')
             break
+        raw_thiele(ctx, s)
         try:
             m = smiles(s)
             if not isinstance(m, MoleculeContainer):
@@ -346,6 +425,7 @@ def worker(ctx):
         if tag != 'special':
             respell(ctx, m, s, rng, Chem)
             protonated(ctx, m, s, cfg, rng)
+            n_substituted(ctx, m, s, cfg, rng)
         # a Kekule spelling by another toolkit must aromatise to the same form
         if tag in ('corpus', 'curated') and rng.random() < .5:
             try:
@@ -387,7 +467,7 @@ def worker(ctx):
 
 def replay(ctx, mechanism, w):
     s = w['smiles']
-    if s.startswith('arenes.sdf') or s.startswith('protonated('):
+    if s.startswith('arenes.sdf') or s.startswith('protonated(') or s.startswith('n-substituted('):
         s = s.split(':', 1)[1] if s.startswith('arenes') else s.rsplit('):', 1)[1]
     m = smiles(s)
     m.kekule()
